@@ -174,7 +174,8 @@ class Ctx:
             return r.gauss(0, 1.5)
         return r.gauss(0, 1) * 10 ** r.uniform(-3, 3)
 
-    def real(self, name, lo=None, hi=None, pos=False, nonneg=False, nonzero=False):
+    def real(self, name, lo=None, hi=None, pos=False, nonneg=False, nonzero=False, sample=None):
+        """sample=(a, b): range used only for native sampling (cross-check / random replay search)"""
         if pos and lo is None:
             lo = 0
         if nonneg and lo is None:
@@ -193,7 +194,7 @@ class Ctx:
             return v
         if name not in self.values:
             for _ in range(100):
-                x = self._sample_real(lo, hi, True)
+                x = self._sample_real(lo, hi, True) if sample is None else self.rng.uniform(*sample)
                 if pos and x <= 0:
                     continue
                 if nonzero and x == 0:
@@ -618,16 +619,98 @@ def _conjuncts(cond):
     return [cond]
 
 
+class Hyps:
+    """hypotheses of a VC: path condition + definitional axioms + lemma instances, with a
+    cone-of-influence filter: a definitional axiom is used only if a symbol it defines occurs
+    (transitively) in the goal or the path condition; a lemma instance only if all the symbols its
+    conclusion relates do.  Dropping hypotheses can only make a VC harder to prove, never unsound;
+    a `sat` obtained on the reduced set is re-checked on the full set before it is reported."""
+
+    def __init__(self, path, lemmas, pc=()):
+        self.path = path
+        self.lemmas = lemmas
+        self.pc = list(pc)
+
+    def with_pc(self, pc):
+        return Hyps(self.path, self.lemmas, pc)
+
+    def full(self):
+        return list(self.path.ax) + [f for _, f in self.lemmas] + self.pc
+
+    def relevant(self, goal):
+        S = set(sym.const_names(goal))
+        for p in self.pc:
+            S |= sym.const_names(p)
+        ax = list(zip(self.path.ax_tags, self.path.ax))
+        used_ax = [False] * len(ax)
+        used_lem = [False] * len(self.lemmas)
+        out = []
+        changed = True
+        while changed:
+            changed = False
+            for i, (tag, f) in enumerate(ax):
+                if used_ax[i]:
+                    continue
+                if tag is None or (tag & S):
+                    used_ax[i] = True
+                    out.append(f)
+                    new = sym.const_names(f) - S
+                    if new:
+                        S |= new
+                        changed = True
+            for i, (tag, f) in enumerate(self.lemmas):
+                if used_lem[i]:
+                    continue
+                if tag and tag <= S:
+                    used_lem[i] = True
+                    out.append(f)
+                    new = sym.const_names(f) - S
+                    if new:
+                        S |= new
+                        changed = True
+        return out + self.pc
+
+
+def solve_hyps(hyps, goal, timeout_ms):
+    if not isinstance(hyps, Hyps):
+        return solve(list(hyps) + [z3.Not(goal)], timeout_ms)
+    rel = hyps.relevant(goal)
+    res, model, b, secs = solve(rel + [z3.Not(goal)], timeout_ms)
+    if res == 'sat':
+        full = hyps.full()
+        if len(full) > len(rel):
+            # the reduced set may miss a needed fact: one short attempt on the full set; if that is
+            # not conclusive the reduced model stands as a *candidate* (the native replay decides)
+            t0 = time.time()
+            r2, m2 = _z3_default(full + [z3.Not(goal)], min(timeout_ms, 8000))
+            secs += time.time() - t0
+            if r2 == z3.unsat:
+                return 'unsat', None, 'z3', secs
+            if r2 == z3.sat:
+                return 'sat', m2, 'z3', secs
+    return res, model, b, secs
+
+
+def canary_solve(hyps, cond):
+    """a canary only has to be *not provable*: one short attempt"""
+    t0 = time.time()
+    rel = hyps.relevant(cond)
+    r, m = _z3_default(rel + [z3.Not(cond)], 4000)
+    if r == z3.unsat:
+        r, m = _z3_default(hyps.full() + [z3.Not(cond)], 4000)   # (cannot become sat; kept for symmetry)
+    return ('unsat' if r == z3.unsat else 'sat' if r == z3.sat else 'unknown'), m, 'z3', time.time() - t0
+
+
 def solve_split(hyps, cond, timeout_ms):
     """discharge hyps => cond, conjunct by conjunct; the first sat/unknown conjunct decides"""
     goals = _conjuncts(cond)
     if len(goals) == 1:
-        return solve(hyps + [z3.Not(cond)], timeout_ms)
+        return solve_hyps(hyps, cond, timeout_ms)
     total = 0.0
     backend = 'z3'
     unknown = None
     for g in goals:
-        res, model, b, secs = solve(hyps + [z3.Not(g)], timeout_ms)
+        res, model, b, secs = solve_hyps(hyps, g, timeout_ms)
         total += secs
         if b != 'z3':
             backend = b
@@ -771,7 +854,7 @@ def verify_contract(cdef, tier='quick', seed=0):
         lem = path.lemma_instances()
         if lem:
             out['lemma_instances'] = out.get('lemma_instances', 0) + len(lem)
-        hyp_ax = path.ax + lem
+        hyp_ax = Hyps(path, lem)
         if run.status == 'unsupported':
             out['undecided'].append("unsupported construct on a path: %s" % (run.exc,))
             continue
@@ -804,7 +887,7 @@ def verify_contract(cdef, tier='quick', seed=0):
                     o['detail'] = 'a clause that must be refutable was proved on every path: vacuous precondition or unsound encoding'
                 if o['status'] == 'canary-ok' or z3.is_true(cond):
                     continue
-                res, model, backend, secs = solve(hyp_ax + rec['pc'] + [z3.Not(cond)], min(timeout_ms, 10000))
+                res, model, backend, secs = canary_solve(hyp_ax.with_pc(rec['pc']), cond)
                 o['solver_s'] += secs
                 out['solver_s'] += secs
                 o['backends'][backend] = o['backends'].get(backend, 0) + 1
@@ -815,7 +898,9 @@ def verify_contract(cdef, tier='quick', seed=0):
             if z3.is_true(cond):
                 o['backends']['simplifier'] = o['backends'].get('simplifier', 0) + 1
                 continue
-            res, model, backend, secs = solve_split(hyp_ax + rec['pc'], cond, timeout_ms)
+            res, model, backend, secs = solve_split(hyp_ax.with_pc(rec['pc']), cond, timeout_ms)
+            if os.environ.get('PYVC_TRACE'):
+                print("   [vc] %-40s %-8s %-9s %.2fs" % (rec['name'], res, backend, secs), flush=True)
             o['solver_s'] += secs
             out['solver_s'] += secs
             o['backends'][backend] = o['backends'].get(backend, 0) + 1
